@@ -1,6 +1,8 @@
 import GmVerif.Thm.C16
 open GmVerif.Thm.C16
 #print axioms mod_n_from_hash_correct
+#print axioms mod_n_from_hash_correct'
+#print axioms mod_n_from_hash_range'
 #print axioms mod_n_from_hash_range
 #print axioms mod_n_from_hash_short
 #print axioms barrett_estimate
